@@ -267,8 +267,10 @@ example : (blockMint defaultParams { last := none, supply := 0, stakers := 0, de
 `nextMint` (with the chain's blocks-per-year constant the division never fails). -/
 theorem C13_generated_emission_step_is_the_model (prev dec : Int) :
     Generated.Pure.GetMintForBlock prev blocksPerYear dec = some (nextMint prev dec) ∧
-    Generated.Pure.GetMintForBlock_inputs = [] := by
-  refine ⟨?_, rfl⟩
+    Generated.Pure.GetMintForBlock_inputs = [] ∧
+    -- … and `BlockMint` still passes it the same blocks-per-year constant, (365·24·60·60)/6
+    Generated.Pure.BlockMint_bpy = blocksPerYear := by
+  refine ⟨?_, rfl, by decide⟩
   unfold Generated.Pure.GetMintForBlock nextMint
   have hq : ∃ q, Dec.quo? (Dec.ofInt dec) (Dec.ofInt blocksPerYear) = some q := by
     unfold Dec.quo?
